@@ -176,6 +176,29 @@ func addVocab(m map[string]Intrinsic) {
 		}
 		return TupleV{mkBV(64, 0), tFalse}
 	}
+	// vLitAfterNum(s): the literal text that follows the first rendered number of an opaque string
+	m["vocab.vLitAfterNum"] = func(vm *VM, fn *ssa.Function, args []Value) Value {
+		s := args[0].(StrV)
+		if !s.Opaque() {
+			if s.Sym {
+				return StrV{}
+			}
+			i := 0
+			for i < len(s.C) && (s.C[i] == '-' || (s.C[i] >= '0' && s.C[i] <= '9')) {
+				i++
+			}
+			return mkStr(s.C[i:])
+		}
+		for i, p := range s.Parts {
+			if p.Num != nil {
+				if i+1 < len(s.Parts) && s.Parts[i+1].Num == nil {
+					return s.Parts[i+1].Lit
+				}
+				return StrV{}
+			}
+		}
+		return StrV{}
+	}
 	m["vocab.vTimeString"] = func(vm *VM, fn *ssa.Function, args []Value) Value {
 		return opaqueNum("time", timeNs(args[0]))
 	}
